@@ -28,7 +28,7 @@ FILES = {'P': 'FProt', 'Q': 'FPlain', 'U': 'FPlain', 'N': None}
 
 MUST_FAIL = {'list', 'llist', 'save', 'peekcode', 'peekother', 'peekflag', 'bsavecode', 'bsaveother', 'pokeflag',
              'pokecode', 'pokeother', 'bloadmissing', 'bloadflag', 'bloadcode', 'bloadother', 'storenew',
-             'storedel', 'chainmerge'}
+             'storedel', 'chainmerge', 'read', 'renum'}
 HANDLER_OK = ['list', 'llist', 'save', 'peekcode', 'peekother', 'bsavecode', 'bsaveother', 'pokeflag',
               'pokeother', 'bloadmissing', 'bloadflag', 'bloadother', 'chainmerge', 'merge', 'read']
 COLON_OK = HANDLER_OK + ['peekflag', 'pokecode', 'bloadcode', 'renum', 'delete', 'new', 'load', 'edit']
@@ -278,10 +278,7 @@ class C16(core.Check):
                'scope: program-reading paths only; values of variables / user functions the program itself defined '
                'are variable contents (out of scope); line numbers (TRON, error messages, AUTO star, EDIT echo) are '
                'not counted as program text']
-    PARTIAL = ('READ (DATA items) and RENUM ("Undefined line" message) are not guarded in the code and disclose '
-               'program bytes from direct mode: known findings K16a/K16b; C16_no_disclosure_statement is proved for '
-               'every other statement (C16_no_disclosure_partial) and the exceptions are proved real as a function '
-               'of the regenerated table (C16_known_read, C16_known_renum)')
+    PARTIAL = None
     RULE = ('direct histories (1-10 statements out of 40 kinds x plain/after-colon/inside-ON-ERROR-handler) after '
             'LOAD of the protected file, its plain copy or another file, with hide_protected on and off; program '
             'runs of the same statements; interactive transcripts; non-trivial = at least one statement reached '
@@ -309,7 +306,7 @@ class C16(core.Check):
             {'k': 'd', 'hide': 1, 'stx': 0, 'seed': 7, 'ev': [['load', 'Q', 0], ['list', 0, 0], ['pokeflag', 1, 0],
                                                                ['list', 0, 0], ['peekflag', 0, 0], ['new', 0, 0],
                                                                ['peekflag', 0, 0]]},
-            # the two known findings
+            # witnesses of the fixed defects D16a (READ) and D16b (RENUM)
             {'k': 'd', 'hide': 1, 'stx': 0, 'seed': 8, 'ev': [L, ['read', 0, 0]]},
             {'k': 'd', 'hide': 1, 'stx': 0, 'seed': 9, 'ev': [L, ['renum', 0, 0]]},
             {'k': 'r', 'hide': 1, 'prot': 1, 'seed': 10, 'ops': [['peekcode', 0], ['pokeother', 0], ['bsavecode', 0],
@@ -709,26 +706,6 @@ class C16(core.Check):
 
     def nontrivial(self, case, out):
         return len(out) > 3 and any(out)
-
-    # ---------------------------------------------------------------- known findings
-    def known_match(self, finding, case, out):
-        cls = (finding.get('witness') or {}).get('statement')
-        if out is None:
-            return False
-        bad = self.findings(case, out)
-        if not bad or case['k'] != 'd':
-            return False
-        names = set(n for _, n, w in bad if w.startswith('plain text'))
-        if any(not w.startswith('plain text') for _, n, w in bad):
-            return False
-        return cls in names and names <= {'read', 'renum'}
-
-    def known_rerun(self, finding):
-        case = (finding.get('witness') or {}).get('case')
-        if not case:
-            return False
-        out = self.impl(case)
-        return bool(self.findings(case, out))
 
 
 CHECK = C16
